@@ -14,7 +14,8 @@ void GeneralSerialEvent::read(AbstractFile & is) {
     data.resize(dataLength);
     is.read(reinterpret_cast<char *>(data.data()), dataLength);
     timeStamps.resize(timeStampsLength / sizeof(int64_t));
-    is.read(reinterpret_cast<char *>(timeStamps.data()), timeStampsLength);
+    is.read(reinterpret_cast<char *>(timeStamps.data()), static_cast<std::streamsize>(timeStamps.size() * sizeof(int64_t)));
+    is.seekg(timeStampsLength % sizeof(int64_t), std::ios_base::cur); // incomplete time stamp
     // @note might be extended in future versions
 }
 
